@@ -18,6 +18,10 @@
 2. ``case_alarm`` -- a per-case CPU-time BACKSTOP (``setitimer(ITIMER_PROF)``) for code that
    hangs without touching a token stream.  CPU time, not wall-clock, so that a descheduled
    worker on a busy machine is not reported as a hang; independent of the runner's SIGALRM.
+   A backstop firing is only a suspicion: the case is re-run alone in a forked child under a
+   kernel CPU limit (``run_isolated``) and reported only if that child is killed by the limit.
+   ``run_isolated`` is also how the regex/lexer blow-up family is executed, because a Python
+   signal handler cannot interrupt a C-level regular-expression match.
 
 3. ``run_at_fixed_depth`` -- run a callable on a dedicated thread so that the library is entered
    at a fixed, documented Python frame depth (``ENTRY_DEPTH``), independent of how deep the pool
@@ -221,35 +225,147 @@ def end_parse() -> tuple[int, int]:
 
 
 # ---------------------------------------------------------------------------
-# 2. CPU-time backstop in the main thread of the worker
+# 2. CPU-time backstop in the main thread of the worker (never a verdict by itself)
 # ---------------------------------------------------------------------------
+class _Armed:
+    __slots__ = ("on", "since", "limit", "ignored")
+
+    def __init__(self) -> None:
+        self.on = False
+        self.since = 0.0
+        self.limit = 0.0
+        self.ignored = 0
+
+
+_ARMED = _Armed()
+
+
 class case_alarm:
     """``with case_alarm() as arm:`` then ``arm(seconds)`` / ``arm(0)`` around each case.
 
-    The timer is ITIMER_PROF: it counts CPU time consumed by this process, so a busy machine
-    (descheduled worker) cannot fire it, and it does not interfere with the runner's shard
-    watchdog (SIGALRM).  The handler raises CaseHang in the main thread."""
+    The timer is ITIMER_PROF (CPU time of this process), independent of the runner's SIGALRM.
+    The handler raises CaseHang in the main thread ONLY when a window is armed and the process
+    really consumed the armed amount of CPU since it was armed (``time.process_time``); a signal
+    that arrives outside a window, or early (stale / mis-accounted timer), is counted in
+    ``spurious_signals()`` and the timer is re-armed for the remainder.  A CaseHang is still
+    only a *suspicion*: callers confirm it with ``run_isolated`` before reporting anything."""
 
     def __enter__(self) -> Callable[[float], None]:
         self.main = threading.current_thread() is threading.main_thread()
         if not self.main:  # no signal handlers outside the main thread: no backstop available
             return lambda seconds: None
+        signal.setitimer(signal.ITIMER_PROF, 0)
+        _ARMED.on = False
         self.old = signal.signal(signal.SIGPROF, self._fire)
         return self._arm
 
     @staticmethod
     def _fire(signum: int, frame: Any) -> None:
+        a = _ARMED
+        if not a.on:
+            a.ignored += 1
+            return
+        used = time.process_time() - a.since
+        if used < 0.9 * a.limit:
+            a.ignored += 1
+            signal.setitimer(signal.ITIMER_PROF, max(0.05, a.limit - used))
+            return
+        a.on = False
         raise CaseHang("cpu-time backstop")
 
     @staticmethod
     def _arm(seconds: float) -> None:
+        a = _ARMED
+        if seconds <= 0:
+            a.on = False
+            signal.setitimer(signal.ITIMER_PROF, 0)
+            return
+        a.since = time.process_time()
+        a.limit = seconds
+        a.on = True
         signal.setitimer(signal.ITIMER_PROF, seconds)
 
     def __exit__(self, *exc: Any) -> None:
         if not self.main:
             return
+        _ARMED.on = False
         signal.setitimer(signal.ITIMER_PROF, 0)
         signal.signal(signal.SIGPROF, self.old)
+
+
+def spurious_signals() -> int:
+    """SIGPROF deliveries that were ignored (outside an armed window or before the CPU was used)."""
+    n = _ARMED.ignored
+    _ARMED.ignored = 0
+    return n
+
+
+# ---------------------------------------------------------------------------
+# 2b. isolated execution in a forked child under a hard CPU limit
+# ---------------------------------------------------------------------------
+ISOLATED_CPU_S = 20  # RLIMIT_CPU of an isolated child (soft; hard = +2): the kernel kills it, whatever it runs
+
+
+def run_isolated(work: Callable[[Callable[[Any], None]], None], cpu_s: int = ISOLATED_CPU_S) -> tuple[list[Any], Optional[int]]:
+    """Run ``work(emit)`` in a forked child whose CPU time is capped by the kernel (RLIMIT_CPU).
+
+    ``emit(obj)`` streams a JSON-able object to the parent at once (so a child that is killed in
+    the middle of a C-level loop has already said what it was about to do).  Returns
+    (objects emitted, None) when the child finished, or (objects emitted, signal number) when it
+    was killed -- SIGXCPU/SIGKILL mean the CPU limit.  The child never returns into the caller:
+    it leaves with os._exit.  This is the only place where C09 forks, and only for the
+    regex/lexer family and to confirm a backstop suspicion -- never per ordinary case."""
+    import json
+    import os
+    import resource
+
+    rfd, wfd = os.pipe()
+    pid = os.fork()
+    if pid == 0:  # ---- child
+        code = 0
+        try:
+            os.close(rfd)
+            signal.setitimer(signal.ITIMER_PROF, 0)
+            signal.setitimer(signal.ITIMER_REAL, 0)
+            signal.signal(signal.SIGPROF, signal.SIG_IGN)
+            signal.signal(signal.SIGALRM, signal.SIG_DFL)
+            signal.signal(signal.SIGXCPU, signal.SIG_DFL)
+            _ARMED.on = False
+            resource.setrlimit(resource.RLIMIT_CPU, (cpu_s, cpu_s + 2))
+
+            def emit(obj: Any) -> None:
+                os.write(wfd, (json.dumps(obj) + "\n").encode())
+
+            work(emit)
+        except BaseException:  # noqa: BLE001
+            code = 3
+        finally:
+            os._exit(code)
+    # ---- parent
+    os.close(wfd)
+    chunks: list[bytes] = []
+    while True:
+        try:
+            data = os.read(rfd, 65536)
+        except InterruptedError:
+            continue
+        if not data:
+            break
+        chunks.append(data)
+    os.close(rfd)
+    _, status = os.waitpid(pid, 0)
+    out: list[Any] = []
+    for line in b"".join(chunks).split(b"\n"):
+        if line.strip():
+            try:
+                out.append(json.loads(line))
+            except ValueError:  # a line cut in half by the kill
+                pass
+    if os.WIFSIGNALED(status):
+        return out, os.WTERMSIG(status)
+    if os.WEXITSTATUS(status) != 0:
+        raise RuntimeError(f"c09 harness: isolated child failed with exit status {os.WEXITSTATUS(status)}")
+    return out, None
 
 
 # ---------------------------------------------------------------------------
